@@ -173,6 +173,9 @@ def check(ctx):
                     ctx.count("reference-variant")
                     if not ok:
                         ctx.fail("oracle", f"C11/oracle/reference-projector/order{order}", f"{name} order {order} cutoff={'yes' if near is not None else 'no'}: span of c_pt differs from the unit eigenspace of projector_permutation_lat_trans_O{order} ({msg})", replay=rep, has_input=True)
+    # ---------------- finite-displacement datasets (exact zeros, +/- pairs split over batches): batch-size independence
+    import p_c13
+    p_c13.sparse_relations(ctx, np.random.default_rng(ctx.seed + 42), prefix="C11/oracle/sparse-data")
     # ---------------- reference variant of the coset projector (matrix representations, order 2; first-order sum)
     from gens import base_cells as _bc, make_supercell as _ms, atoms_of as _ao
     from symfc.spg_reps import SpgRepsO2
